@@ -16,7 +16,7 @@ PROPERTY = 'C11'
 TITLE = 'Convention detection and binding are deterministic and stable'
 RULE = (
     "Detection: one case per registration order of up to 3 extra conventions out of {matches-all HIGH, "
-    "matches-all MEDIUM, matches-all LOW, matches-nothing} (41 orders, each executed in a forked child of a "
+    "matches-all MEDIUM, matches-all LOW, matches-nothing, matches-all above HIGH, a built-in class registered by hand (UGrid, ShocSimple)} (260 orders, each executed in a forked child of a "
     "pristine parent so the global registry is never reset by hand) x every dataset of the list (one per "
     "convention plus near-misses with one distinguishing attribute or variable removed), each detected "
     "twice and through both get_dataset_convention and the accessor.  Binding: explicit-state search "
@@ -28,18 +28,18 @@ RULE = (
     "decided by manual registration; histories containing both a copy and a bind."
     ' Also: the UGRID marker inside every usual spelling of a conventions list, detection repeated after every convention class was used by hand, and the same file path rewritten with other kinds of dataset and reopened ([a, b, a] for all pairs).'
 )
-LEVEL_TEXT = ("all 41 registration orders x 14 datasets against a detection model written from the docstrings; all binding "
+LEVEL_TEXT = ("all 260 registration orders x 24 datasets against a detection model written from the docstrings; all binding "
               "histories to depth 3/4 plus the reachable canonical state graph to depth 6 against a map model "
               "(object -> bound instance)")
 LEVEL_NOTE = ("ties between two built-in conventions or two manually registered ones are not generated (the property does not "
               "order them); entry-point discovery itself is trusted")
 ASSUMPTIONS = ["a forked child of a process that never registered anything has a pristine registry"]
 
-EXTRAS = ('HIGH', 'MEDIUM', 'LOW', 'NOTHING')
+EXTRAS = ('HIGH', 'MEDIUM', 'LOW', 'NOTHING', 'ABOVE', 'BUILTIN-UGrid', 'BUILTIN-ShocSimple')
 
 
 def bounds(tier):
-    return {'registration_orders': 41, 'history_depth_full': 3 if tier == 'quick' else 5, 'bfs_depth': 6 if tier == 'quick' else 8, 'objects': 3}
+    return {'registration_orders': 260, 'history_depth_full': 3 if tier == 'quick' else 5, 'bfs_depth': 6 if tier == 'quick' else 8, 'objects': 3}
 
 
 def cases(tier):
@@ -96,6 +96,12 @@ def detection_datasets():
     d = ugrid.copy()
     d.attrs['Conventions'] = 'ugrid-1.0'        # the marker is upper case
     out['ugrid-lowercase-marker'] = d
+    out['ugrid-second-mesh'] = builders.build({'family': 'ugrid', 'mesh': 'M1', 'second_mesh': True})[0]
+    # a mesh file that also carries what identifies a SHOC simple file: two built-in conventions match equally well
+    d = ugrid.copy()
+    d.attrs['ems_version'] = 'v1.2.3'
+    d['on_j_i'] = xr.DataArray(np.zeros((2, 2)), dims=['j', 'i'])
+    out['ugrid-with-shoc-simple-marks'] = d
     out['shoc-standard-missing-coordinate'] = out['shoc_standard'].drop_vars(['x_left'])
     d = out['shoc_simple'].copy()
     d.attrs = {k: v for k, v in d.attrs.items() if k != 'ems_version'}
@@ -143,25 +149,36 @@ def model_matches(ds) -> list[tuple[str, int]]:
 
 def model_detect(ds, order) -> tuple[str | None, bool]:
     """(expected winner, decided by a manual/built-in tie?).  Raises if the spec leaves it open."""
-    level = {'HIGH': 30, 'MEDIUM': 20, 'LOW': 10}
-    manual = [(f'Extra{name}', level[name]) for name in order if name != 'NOTHING']
+    level = {'HIGH': 30, 'MEDIUM': 20, 'LOW': 10, 'ABOVE': 40}
     builtin = model_matches(ds)
+    manual = []
+    for name in order:
+        if name in level:
+            manual.append((f'Extra{name}', level[name]))
+        elif name.startswith('BUILTIN-'):
+            # a built-in class registered by hand: it matches what it matches, but now with manual priority
+            manual += [(n, s) for n, s in builtin if n == name.split('-', 1)[1]]
     if not manual and not builtin:
         return None, False
     best = max(s for _, s in manual + builtin)
     manual_best = [n for n, s in manual if s == best]
-    builtin_best = [n for n, s in builtin if s == best]
-    if manual_best:
-        assert len(manual_best) == 1
+    builtin_best = [n for n, s in builtin if s == best and n not in manual_best]
+    if len(manual_best) == 1:
         return manual_best[0], bool(builtin_best)
-    assert len(builtin_best) == 1, f"generator produced an unspecified tie: {builtin_best}"
+    if len(manual_best) > 1 or len(builtin_best) > 1:
+        return 'UNSPECIFIED', False       # a tie the property does not order
     return builtin_best[0], False
 
 
 def make_extra(name):
     from emsarray.conventions import Specificity
     from emsarray.conventions.grid import CFGrid1D
-    level = {'HIGH': Specificity.HIGH, 'MEDIUM': Specificity.MEDIUM, 'LOW': Specificity.LOW, 'NOTHING': None}[name]
+    if name.startswith('BUILTIN-'):
+        import emsarray.conventions.shoc
+        import emsarray.conventions.ugrid
+        return {'UGrid': emsarray.conventions.ugrid.UGrid, 'ShocSimple': emsarray.conventions.shoc.ShocSimple}[name.split('-', 1)[1]]
+    level = {'HIGH': Specificity.HIGH, 'MEDIUM': Specificity.MEDIUM, 'LOW': Specificity.LOW, 'NOTHING': None,
+             'ABOVE': Specificity.HIGH + 10}[name]
 
     class Extra(CFGrid1D):
         @classmethod
@@ -257,6 +274,9 @@ def run_detect(case, rec):
     datasets = detection_datasets()
     for key, ds in datasets.items():
         want, tie = model_detect(ds, order)
+        if want == 'UNSPECIFIED':
+            rec.step()
+            continue
         if tie:
             rec.nontrivial((key, tuple(order)))
         got = report[key]
@@ -494,6 +514,8 @@ def run_files(case, rec):
                 os.remove(path)
             datasets[key].to_netcdf(path)
             want, _ = model_detect(datasets[key], [])
+            if want == 'UNSPECIFIED':
+                continue
             opened = xr.open_dataset(path)
             try:
                 got = type(opened.ems).__name__
